@@ -327,6 +327,16 @@ class Interp:
             ka, kb = kb, ka
         return self.run.assume(("eq", ka, kb), label or f"{self.show(a)} == {self.show(b)}")
 
+    def expr_of(self, v: Value) -> str:
+        """provenance expression of a value (no uniqueness counters)"""
+        if isinstance(v, Unknown):
+            return v.meta.get("expr", v.tag.split("#")[0])
+        if isinstance(v, Str):
+            return repr(v.text()) if v.is_concrete() else v.render()
+        if isinstance(v, SymBool):
+            return ("not " if v.neg else "") + v.tag
+        return repr(v)
+
     def show(self, v: Value) -> str:
         return v.render() if isinstance(v, Str) else repr(v)
 
@@ -453,8 +463,11 @@ class Interp:
                 if r is not None:
                     return r
             tag = f"{f.tag}(...)"
-            self.run.event("call_unknown", target=f.tag, args=args, kwargs=kwargs, node=node)
-            return Unknown(self.run.new_tag(tag))
+            self.run.event("call_unknown", target=f.tag, args=args, kwargs=kwargs, node=node, fvalue=f,
+                           func=(fr.func.qualname if fr and fr.func else ""), module=(fr.module if fr else ""))
+            argtxt = ", ".join([self.expr_of(a) for a in args] + [f"{k}={self.expr_of(v)}" for k, v in kwargs.items()])
+            return Unknown(self.run.new_tag(tag), {"call_of": f, "args": args, "kwargs": kwargs,
+                                                   "expr": f"{self.expr_of(f)}({argtxt})"})
         raise self.unsupported(f"call of {f!r}", node, fr)
 
     def call_func(self, func: FuncInfo, args: List[Value], kwargs: Dict[str, Value], self_val: Optional[Value],
@@ -633,7 +646,7 @@ class Interp:
         if isinstance(v, Extern):
             return Extern(f"{v.name}.{name}", v.recv)
         if isinstance(v, Unknown):
-            return Unknown(f"{v.tag}.{name}", {"recv": v, "attr": name})
+            return Unknown(f"{v.tag}.{name}", {"recv": v, "attr": name, "expr": f"{self.expr_of(v)}.{name}"})
         if isinstance(v, ExcV):
             if name == "args":
                 return TupleV(v.args)
